@@ -7,6 +7,8 @@ import NucsProofs.Propagators.Counting
 import NucsProofs.Propagators.Dummy
 import NucsProofs.Propagators.Element
 import NucsProofs.Propagators.ExactOfSupport
+import NucsProofs.Propagators.GccExact
+import NucsProofs.Propagators.GccPortSound
 import NucsProofs.Propagators.GccReg
 import NucsProofs.Propagators.Lex
 import NucsProofs.Propagators.MinMax
@@ -55,5 +57,20 @@ example : Contract .affineLeq [1, 1, -1, 0] [(2, 5), (2, 5), (0, 10)] ∧
     Box.Nonempty [(2, 5), (2, 5), (0, 10)] ∧
     runAlg .affineLeq [1, 1, -1, 0] [(2, 5), (2, 5), (0, 10)] = .ok (.cons, [(2, 5), (2, 5), (4, 10)]) := by
   refine ⟨by simp [Contract], by simp [Box.Nonempty], by rfl⟩
+
+/-- soundness of the RAW ported gcc (nucs/propagators/gcc_propagator.py line by line), for EVERY number of values, when every
+    upper capacity is at least 1: a failing call had no solution; a non-failing call returns a non-empty sub-box that keeps every
+    solution (11 kLoC: NucsProofs/Propagators/GccSound*.lean, GccExist*.lean).  `C05_gcc` above is about the registered model
+    (the port behind a result checker, which rejects when there are more than 12 values). -/
+theorem C05_gcc_port (ps : List Int) (B : Box) (hc : Contract .gcc ps B) (hB : B.Nonempty)
+    (hu : ∀ j, j < (ps.length - 1) / 2 → 1 ≤ getI ps (1 + (ps.length - 1) / 2 + j))
+    (st : Status) (B' : Box) (h : gcc ps B = .ok (st, B')) :
+    (st ≠ .inc → Box.le B' B ∧ B'.Nonempty ∧ ∀ t, inBox t B → rel .gcc ps t → inBox t B') ∧
+    (st = .inc → ∀ t, inBox t B → ¬ rel .gcc ps t) := gcc_port_sound ps B hc hB hu st B' h
+/-- … and it fails exactly when there is no solution (completeness of the failure detection) -/
+theorem C05_gcc_port_feasible (ps : List Int) (B : Box) (hc : Contract .gcc ps B) (hB : B.Nonempty)
+    (hu : ∀ j, j < (ps.length - 1) / 2 → 1 ≤ getI ps (1 + (ps.length - 1) / 2 + j))
+    (st : Status) (B' : Box) (h : gcc ps B = .ok (st, B')) (hst : st ≠ .inc) :
+    ∃ t, inBox t B ∧ rel .gcc ps t := gcc_port_feasible ps B hc hB hu st B' h hst
 
 end Nucs
